@@ -11,7 +11,7 @@ for _f in sorted(os.listdir(_d)):
         PROPS[_f[:-3]] = importlib.import_module(_f[:-3]).CFG
 
 # generator engine name -> model driver engine name (when they differ)
-ENGINE_MODEL = {"linkaddr": "transport"}
+ENGINE_MODEL = {"linkaddr": "transport", "outstationdb": "outstation"}
 for _c in PROPS.values():
     ENGINE_MODEL.update(_c.get("engine_model", {}))
 
